@@ -672,7 +672,7 @@ func (r *run) intercept(req *fakekafka.Request) *fakekafka.Reply {
 	}
 	ep := req.Conn.LocalAddr().String() // the endpoint the client dialled
 	ev := trace.Event{"ev": "req", "conn": cid, "broker": b, "ep": ep, "api": name, "v": int(req.Version), "corr": int(req.CorrID), "o": o, "leg": leg,
-		"t": info["t"], "p": info["p"], "key": info["key"], "n": n, "unserved": !r.canServe(req)}
+		"t": info["t"], "p": info["p"], "key": info["key"], "keytype": info["keytype"], "n": n, "unserved": !r.canServe(req)}
 	r.rec.Emit(ev)
 	if ch := r.arrived[o]; ch != nil && o > 0 {
 		select {
@@ -722,7 +722,7 @@ func (r *run) intercept(req *fakekafka.Request) *fakekafka.Reply {
 		}
 	}
 	if rep.Close || rep.None {
-		r.rec.Emit(trace.Event{"ev": "reply", "conn": cid, "broker": b, "ep": ep, "addrs": addrs, "api": name, "v": int(req.Version), "corr": int(req.CorrID), "o": o, "leg": leg,
+		r.rec.Emit(trace.Event{"ev": "reply", "conn": cid, "broker": b, "ep": ep, "addrs": addrs, "keytype": info["keytype"], "api": name, "v": int(req.Version), "corr": int(req.CorrID), "o": o, "leg": leg,
 			"cut": 0, "len": 0, "closed": rep.Close, "node": node, "n": n, "alive": alive, "topics": topics, "ctrlr": ctrlr, "ranges": []interface{}{}})
 		return &rep
 	}
@@ -731,7 +731,7 @@ func (r *run) intercept(req *fakekafka.Request) *fakekafka.Reply {
 	if rep.CutAt >= 0 && rep.CutAt < flen {
 		cut = rep.CutAt
 	}
-	rev := trace.Event{"ev": "reply", "conn": cid, "broker": b, "ep": ep, "addrs": addrs, "api": name, "v": int(req.Version), "corr": int(req.CorrID), "o": o, "leg": leg,
+	rev := trace.Event{"ev": "reply", "conn": cid, "broker": b, "ep": ep, "addrs": addrs, "keytype": info["keytype"], "api": name, "v": int(req.Version), "corr": int(req.CorrID), "o": o, "leg": leg,
 		"cut": cut, "len": flen, "closed": false, "node": node, "n": n, "alive": alive, "topics": topics, "ctrlr": ctrlr, "ranges": []interface{}{}}
 	if rep.Lazy != nil {
 		// gated replies of the group coordinator: the frame is built when the gate opens
